@@ -528,3 +528,106 @@ var _ = wire.NewRand
 func enc2Key() *big.Int {
 	return tlsk.Get().Enc2.PrivateKey.(*sm2.PrivateKey).D
 }
+
+// ---- the standard TLS 1.2 path with the reference peer's TLS profile ---------------------------
+
+func tlsClientCases() []refCase {
+	pk := tlsk.Get()
+	cvWith := func(f func(p *gmref.Peer) []byte) func(int, []gmref.Item) []gmref.Item {
+		return replace("CertificateVerify", func(p *gmref.Peer) []byte { return gmref.HS(gmref.HSCertVerify, f(p)) })
+	}
+	sign := func(p *gmref.Peer, transcript []byte) []byte {
+		save := p.Transcript
+		p.Transcript = transcript
+		b := gmref.TLS12RSA.SignCV(p)
+		p.Transcript = save
+		return b
+	}
+	cs := []refCase{
+		{name: "control: genuine client certificate and proof", conformant: true, accept: all(true)},
+		{name: "CertificateVerify omitted", mutate: omit("CertificateVerify")},
+		{name: "CertificateVerify by the server's ECDSA key", ident: func(id *gmref.Identity) { id.TLSKey = pk.ECDSAKey }},
+		{name: "CertificateVerify by an RSA key for an ECDSA certificate", ident: func(id *gmref.Identity) { id.TLSKey = pk.RSAKey }},
+		{name: "CertificateVerify over the transcript without ClientKeyExchange", mutate: cvWith(func(p *gmref.Peer) []byte {
+			full := p.Transcript
+			off, last := 0, 0
+			for off+4 <= len(full) {
+				last = off
+				off += 4 + (int(full[off+1])<<16 | int(full[off+2])<<8 | int(full[off+3]))
+			}
+			return sign(p, full[:last])
+		})},
+		{name: "CertificateVerify over another transcript", mutate: cvWith(func(p *gmref.Peer) []byte { return sign(p, []byte("another session")) })},
+		{name: "CertificateVerify with the hash algorithm byte changed to SHA-1", mutate: cvWith(func(p *gmref.Peer) []byte {
+			b := gmref.TLS12RSA.SignCV(p)
+			b[0] = 2
+			return b
+		})},
+		{name: "CertificateVerify with the signature algorithm byte changed to RSA", mutate: cvWith(func(p *gmref.Peer) []byte {
+			b := gmref.TLS12RSA.SignCV(p)
+			b[1] = 1
+			return b
+		})},
+		{name: "CertificateVerify with a trailing byte (length field consistent)", malformedOnly: true, mutate: cvWith(func(p *gmref.Peer) []byte {
+			b := append(gmref.TLS12RSA.SignCV(p), 0)
+			n := len(b) - 4
+			b[2], b[3] = byte(n>>8), byte(n)
+			return b
+		})},
+		{name: "certificate from an untrusted CA with its key and a valid proof", accept: verifying(false), ident: func(id *gmref.Identity) {
+			id.Certs, id.TLSKey = [][]byte{pk.StdClientUntrusted.Certificate[0]}, pk.StdClientUntrusted.PrivateKey
+		}},
+		{name: "certificate list [genuine certificate, untrusted certificate], CertificateVerify by the untrusted certificate's key", ident: func(id *gmref.Identity) {
+			id.Certs, id.TLSKey = [][]byte{pk.StdClient.Certificate[0], pk.StdClientUntrusted.Certificate[0]}, pk.StdClientUntrusted.PrivateKey
+		}},
+		{name: "the server's own certificate as client certificate with a foreign key", ident: func(id *gmref.Identity) {
+			id.Certs = [][]byte{pk.ECDSA.Certificate[0]}
+		}},
+	}
+	return append(cs, finishedCases(true)...)
+}
+
+func tlsRefClientUnit(suite uint16) harness.Unit {
+	return harness.Unit{Name: fmt.Sprintf("tls12-scripted-malicious-client/%04x", suite), Run: func(c *harness.Ctx) {
+		p := tlsk.Get()
+		for i, rc := range tlsClientCases() {
+			for _, pol := range policies {
+				if pol == gmtls.NoClientCert {
+					continue
+				}
+				id := gmref.Identity{Certs: [][]byte{p.StdClient.Certificate[0]}, TLSKey: p.StdClient.PrivateKey}
+				if rc.ident != nil {
+					rc.ident(&id)
+				}
+				sc := &gmtls.Config{Certificates: []gmtls.Certificate{p.RSA}, Time: tlsk.FixedTime, Rand: wire.NewRand(35), CipherSuites: []uint16{suite}, MinVersion: 0x0303, MaxVersion: 0x0303, ClientAuth: pol, ClientCAs: p.StdRootsG}
+				script := &gmref.Script{SendClientCert: true, Data: tlsk.PingPong(true), Mutate: rc.mutate}
+				o := tlsk.RunLibVsRef(sc, false, tlsk.LibApp(false), id, byte(100+i), func(q *gmref.Peer) { q.UseTLS(); q.Suites = []uint16{suite} }, script, nil)
+				may := (rc.accept != nil && rc.accept[pol]) || rc.malformedOnly
+				judgeRefCase(c, fmt.Sprintf("TLS 1.2 suite=%04x ClientAuth=%d scripted client: %s", suite, pol, rc.name), fmt.Sprintf("tls12-scripted-client:%s:ClientAuth=%d", rc.name, pol), o, rc.conformant, may)
+			}
+		}
+	}}
+}
+
+func tlsRefServerUnit(suite uint16) harness.Unit {
+	return harness.Unit{Name: fmt.Sprintf("tls12-scripted-malicious-server/%04x", suite), Run: func(c *harness.Ctx) {
+		p := tlsk.Get()
+		cases := append([]refCase{
+			{name: "control: genuine RSA identity", conformant: true},
+			{name: "genuine certificate, private key of someone else (pre-master secret cannot be decrypted)", ident: func(id *gmref.Identity) { id.RSAKey = nil }},
+			{name: "certificate for another key type than the key exchange (ECDSA certificate, RSA key exchange)", ident: func(id *gmref.Identity) { id.Certs = [][]byte{p.ECDSA.Certificate[0]} }},
+			{name: "an SM2 certificate from the GM PKI", ident: func(id *gmref.Identity) { id.Certs = [][]byte{p.Sign.Certificate[0]} }},
+			{name: "empty certificate list", ident: func(id *gmref.Identity) { id.Certs = nil }},
+		}, finishedCases(false)...)
+		for i, rc := range cases {
+			id := gmref.Identity{Certs: [][]byte{p.RSA.Certificate[0]}, RSAKey: p.RSAKey}
+			if rc.ident != nil {
+				rc.ident(&id)
+			}
+			cc := &gmtls.Config{RootCAs: p.StdRootsG, ServerName: tlsk.ServerName, Time: tlsk.FixedTime, Rand: wire.NewRand(36), CipherSuites: []uint16{suite}, MinVersion: 0x0303, MaxVersion: 0x0303}
+			script := &gmref.Script{Data: tlsk.PingPong(false), Mutate: rc.mutate}
+			o := tlsk.RunLibVsRef(cc, true, tlsk.LibApp(true), id, byte(120+i), func(q *gmref.Peer) { q.UseTLS(); q.Suites = []uint16{suite} }, script, nil)
+			judgeRefCase(c, fmt.Sprintf("TLS 1.2 suite=%04x scripted server: %s", suite, rc.name), "tls12-scripted-server:"+rc.name, o, rc.conformant, false)
+		}
+	}}
+}
